@@ -98,6 +98,23 @@ def t_dv_single():
     return g.set_start_nodes({r}), dict(sel=[c1], dv=[d_one, d_one_c, d_two, c])
 
 
+def t_dv_or_existence():
+    """a design variable under a node that is reachable from options of two different choices (OR-existence), next to a
+    design variable that exists under one option only"""
+    B, N, CN, G, DV, *_ = _imp()
+    g = B()
+    r = N('R')
+    a = [N('N11'), N('N12')]
+    b = [N('N21'), N('N22')]
+    shared = N('SH')
+    dv_a = DV('DA', options=[1, 2])
+    dv_b = DV('DB', options=[1, 2, 3])
+    c1 = g.add_selection_choice('C1', r, a)
+    c2 = g.add_selection_choice('C2', r, b)
+    g.add_edges([(a[0], dv_a), (a[1], shared), (b[1], shared), (shared, dv_b)])
+    return g.set_start_nodes({r}), dict(sel=[c1, c2], dv=[dv_a, dv_b])
+
+
 def t_dv_linked():
     B, N, CN, G, DV, M, CCT = _imp()
     g = B()
@@ -355,7 +372,7 @@ def t_conn_dv():
 
 TEMPLATES = {
     'two_indep': t_two_indep, 'nested': t_nested, 'nested3': t_nested3, 'incompat': t_incompat, 'forced': t_forced,
-    'dv': t_dv, 'dv_single': t_dv_single, 'dv_linked': t_dv_linked, 'sel_linked': t_sel_linked, 'sel_forced_linked': t_sel_forced_linked,
+    'dv': t_dv, 'dv_single': t_dv_single, 'dv_or_existence': t_dv_or_existence, 'dv_linked': t_dv_linked, 'sel_linked': t_sel_linked, 'sel_forced_linked': t_sel_forced_linked,
     'conn_simple': t_conn_simple, 'conn_cond': t_conn_cond, 'conn_opt_src': t_conn_opt_src,
     'conn_infeasible_scenario': t_conn_infeasible_scenario, 'conn_group': t_conn_group,
     'conn_group_finite': t_conn_group_finite, 'conn_group_open': t_conn_group_open, 'conn_group_open2': t_conn_group_open2, 'conn_excl': t_conn_excl, 'conn_two': t_conn_two, 'conn_dv': t_conn_dv,
